@@ -573,7 +573,13 @@ class Engine:
       base = self.eval(t.value, st, func)
       idx = self.eval_index(t.slice, st, func)
       self.dom.on_augassign('subscript', base, stmt.op, val, stmt, st)
-      self.dom.on_store_subscript(base, idx, val, stmt, st)
+      r = self.dom.on_store_subscript(base, idx, val, stmt, st)
+      if r is not None and isinstance(t.value, ast.Name):
+        st.vars[t.value.id] = base.with_(d=r)
+      elif r is not None and isinstance(t.value, ast.Attribute):
+        ov = self.eval(t.value.value, st, func)
+        if ov.obj is not None:
+          st.vars[(ov.obj.oid, t.value.attr)] = base.with_(d=r)
     return self._finish(st)
 
   def st_Delete(self, stmt, st, func):
